@@ -6,14 +6,15 @@ import McpModel.Wire.LemmasSpell
 import McpModel.Wire.LemmasResult
 import McpModel.Wire.LemmasOrder
 import McpModel.Wire.LemmasInput
+import McpModel.Wire.LemmasSse
 /-!
 # C19 (and the E2 part of C02) — property theorems of the wire engine
 
 Model: `Wire.encodeMsg`/`decodeMsg` (`internal/jsonrpc2/messages.go`, `wire.go`), `decodeID` (the
 REPAIRED id path, fix F1), `toWireError`, `frame`/`unframe`, `readBatch`, `opRead`/`opWrite`
-(`ioConn`, REPAIRED batch tracking, fix F2), `writeEvent`/`scanEvents` (`mcp/event.go`),
+(`ioConn`, REPAIRED batch tracking, fix F2), `writeEvent`/`scanEvents` (`mcp/event.go`; `renderStream`: event streams as any conforming peer frames them),
 `encodeContent`/`decodeContent` (`mcp/content.go`, REPAIRED nesting, fix F8), `sdkResultList`
-(REPAIRED normalisation, fix F15), `sdkCallTool` (results of raw tool handlers; REPAIRED nil result, fix
+(REPAIRED normalisation, fix F15), `listPage` (`paginateList` + the list handlers' `setFunc`, every cursor), `sdkCallTool` (results of raw tool handlers; REPAIRED nil result, fix
 wire-F30), `unquote` (the spelling of string literals on the wire).  Struct tags, codes and framing constants come from
 `Generated.Wire` (regenerated from /repo on every run): a changed tag re-opens these proofs.
 
@@ -139,6 +140,35 @@ theorem sse_roundtrip (es : List Event) (h : ∀ e ∈ es, CleanEvent e) :
     scanEvents (es.flatMap writeEvent) = (es, false) :=
   L.sse_roundtrip es h
 
+/-- **sse_eol_irrelevant.** The scanner does not see whether a line ended in LF or in CRLF: for EVERY
+list of LF-free lines — field lines, comments, blank lines, garbage —, every choice of line end per
+line, and every unterminated rest, scanning the stream yields the events and the verdict that
+scanning the same lines written with LF yields. -/
+theorem sse_eol_irrelevant (ls : List (Bytes × Eol)) (rest : Bytes) (h : ∀ p ∈ ls, LF ∉ p.1) :
+    scanEvents (renderLines ls ++ rest) = scanEvents (frame (ls.map (·.1)) ++ rest) :=
+  L.sse_eol_irrelevant ls rest h
+
+/-- **sse_roundtrip_any_eol.** An event stream as ANY conforming peer may frame it — each line ended
+by LF or CRLF (chosen line by line, the dispatching blank line included), comment lines anywhere,
+fields in any order and any number of times, the payload spread over several `data` lines, `retry`
+lines, unknown fields with arbitrary values, any run of spaces/tabs (or none) after the colon — is
+scanned, without error, to exactly the events it denotes (`FEvent.denote`: last `event`/`id`/`retry`
+value, the `data` values joined by LF), in order; blocks that denote nothing (comments only, blank
+lines) yield nothing.  For EVERY list of such events (`WfFLine`: key without colon, line without LF,
+values of the four known fields trimmed). -/
+theorem sse_roundtrip_any_eol (es : List FEvent) (h : ∀ e ∈ es, ∀ l ∈ e.lines, WfFLine l) :
+    scanEvents (renderStream es) = ((es.map FEvent.denote).filter (fun e => !e.isEmpty), false) :=
+  L.sse_roundtrip_any_eol es h
+
+/-- Non-vacuity: `: hi CRLF  data:{ CRLF  event: m LF  data: } CRLF  CRLF` denotes the event `m` with data
+`{ LF }`; a comment-only block denotes nothing. -/
+example : scanEvents (renderStream [⟨[⟨[], [], [32, 104, 105], .crlf⟩, ⟨sse_dataKey, [], [123], .crlf⟩,
+      ⟨sse_eventKey, [32], [109], .lf⟩, ⟨sse_dataKey, [32], [125], .crlf⟩], .crlf⟩, ⟨[⟨[], [], [107], .crlf⟩], .crlf⟩]) =
+    ([{ name := [109], data := [123, 10, 125] }], false) := by decide
+example : WfFLine ⟨sse_dataKey, [32, 9], [123, 125], .crlf⟩ := L.wfFLine_spec _ (by decide)
+/-- what the hypothesis excludes: a data value ending in a blank is not read back as it was written -/
+example : (scanEvents (renderStream [⟨[⟨sse_dataKey, [], [120, 32], .lf⟩], .lf⟩])).1 ≠ [{ data := [120, 32] }] := by decide
+
 /-- **batch_roundtrip.** A batch frame made of the encodings of well-formed messages is read back as
 exactly those messages (and a single message as itself); `Read` then hands the queue out in order. -/
 theorem batch_roundtrip (ms : List Msg) (hne : ms ≠ []) (h : ∀ m ∈ ms, wfMsg m = true) :
@@ -218,6 +248,33 @@ list member — never `null` — whatever the handler or registry left (nil incl
 theorem required_lists_present (k : RKind) (l : RList) (v : JVal) (h : sdkResultList k l = .sent v) :
     ∃ items, v = .arr items :=
   L.required_lists_present k l v h
+
+/-- **required_lists_present, every cursor position.** A list request (`tools/list`, `prompts/list`,
+`resources/list`, `resources/templates/list`) against ANY registry (sorted key list), with ANY page
+size and ANY cursor — none, one the server issued earlier (stale or not), a forged well-formed one
+naming any string — is answered either with an error (the cursor does not decode) or with a result
+whose list member is an ARRAY of at most `pageSize` items: the items of the keys the cursor leaves,
+in order.  Never `null`. -/
+theorem required_lists_present_paged (k : RKind) (hk : k.isPaged = true) (item : Bytes → JVal) (keys : List Bytes)
+    (ps : Nat) (c : Cursor) :
+    (c = .garbage ∧ (listPage k item keys ps c).1 = .errorInstead) ∨
+    (∃ items, (listPage k item keys ps c).1 = .sent (.arr items) ∧ items.length ≤ ps ∧
+      items = ((pageSeq keys c).take ps).map item) :=
+  L.required_lists_present_paged k hk item keys ps c
+
+/-- … at every position: with the keys split into those not above the cursor's uid and the rest (empty,
+or starting with a key above it), the page is the first `pageSize` items of the rest … -/
+theorem list_page_at_position (k : RKind) (hk : k.isPaged = true) (item : Bytes → JVal) (a b : List Bytes)
+    (ps : Nat) (uid : Bytes) (ha : ∀ x ∈ a, keyLt uid x = false) (hb : ∀ h t, b = h :: t → keyLt uid h = true) :
+    (listPage k item (a ++ b) ps (.after uid)).1 = .sent (.arr ((b.take ps).map item)) :=
+  L.list_page_at_position k hk item a b ps uid ha hb
+
+/-- … and **the page above the last key is the EMPTY ARRAY** (no further cursor): a cursor at or beyond
+the last key — the one page 1 issued, after the items above it were removed — gets `[]`. -/
+theorem list_page_beyond_last_is_empty_array (k : RKind) (hk : k.isPaged = true) (item : Bytes → JVal)
+    (keys : List Bytes) (ps : Nat) (uid : Bytes) (h : ∀ x ∈ keys, keyLt uid x = false) :
+    listPage k item keys ps (.after uid) = (.sent (.arr []), none) :=
+  L.list_page_beyond_last k hk item keys ps uid h
 
 /-- **call_tool_content_present** (required_members_present for `tools/call` through the low-level
 `Server.AddTool`). Whatever result a raw tool handler returns — `Content` nil, empty or not,
